@@ -110,6 +110,13 @@ def run(ctx):
                         r.bad('mutation-after-hash', 'batch_edit mutates the tree after refreshing the hash cache', where=[body.ln(bi)])
             return r
         ctx.check('HASH-CACHE', 'batch_edit: no mutation after the cache refresh', muts_before_hash, floor=3)
+    TH = 'tree_hash::tree_hash'
+    ctx.check('HASH-CACHE', 'cache resized to the node count of the tree on every refresh (grown AND truncated)',
+              lambda P_: must_pass(P_, TH, r'Vec::resize$', require_checked=False), floor=1)
+    ctx.check('HASH-CACHE', 'cache size = 2 * leaves - 1',
+              lambda P_: wire(P_, TH, r'Vec::resize$', 1, r'^\(\(num_leaves MulWithOverflow const 2\)\.0 SubWithOverflow const 1\)\.0$'), floor=1)
+    ctx.check('HASH-CACHE', 'the resized vector is the cache being refreshed',
+              lambda P_: wire(P_, TH, r'Vec::resize$', 0, r'^hashes$'), floor=1)
     ctx.check('WHO-WRITES', 'hash cache written only by tree_hash.rs',
               lambda P_: who_writes(P_, 'TreeKemPublic', 'tree_hashes',
                                     [r'^TreeKemPublic::(update_hashes|initialize_hashes|import_node_data)$', r'^TreeKemPublic as (Clone|Default|MlsDecode)::',
